@@ -67,7 +67,7 @@ def main():
             env = dict(os.environ, VERIF_REPO=tmp, VERIF_OUT=os.path.join(tmp, "out"))
             r = subprocess.run([os.path.join(ROOT, "check"), m["property"]], env=env, stdout=subprocess.PIPE, stderr=subprocess.STDOUT, text=True)
             want = m.get("expect", "violation")
-            ok = (r.returncode == 1 and "VIOLATION" in r.stdout) if want == "violation" else (r.returncode == 0)
+            ok = (r.returncode == 1 and "VIOLATION" in r.stdout) if want == "violation" else (r.returncode == 2) if want == "undecided" else (r.returncode == 0)
             first = [l for l in r.stdout.split("\n") if l.startswith(("VIOLATION", "UNDECIDED", "OK"))][:2]
             print(("ok   " if ok else "MISS ") + f"{m['property']} {m['name']}: want={want} rc={r.returncode} " + " | ".join(x[:160] for x in first))
             bad += 0 if ok else 1
